@@ -170,6 +170,39 @@ def rules_c21(ctx):
             ctx.violation(R, "corpus|%s|no-reset" % tick, "%s: no operator state is re-initialised at the end of the tick although the operator has 'tick persistence" % tick, bt.loc())
         if res[static]:
             ctx.violation(R, "corpus|%s|static-reset" % static, "%s: operator state is written at the end of the tick although the operator has 'static persistence: %s" % (static, res[static]), bs.loc())
+    rules_c21_mixed(ctx, R)
+
+
+def tick_end_fields(b):
+    e = call_blocks(b, "__end_tick")
+    sb, _ss = schedule_switch(b)
+    if len(e) != 1 or sb is None:
+        return None
+    import re as _re
+    region = set(x for x in range(b.n) if not b.is_cleanup(x) and b.dominates(sb, x) and x in _reaching(b, e[0]) and x != sb)
+    return set(_re.sub(r".*(_1\.\d+).*", r"\1", w[1]) for w in upvar_state_writes(b, region) if "swap" not in w[1])
+
+
+def rules_c21_mixed(ctx, R):
+    """operators with one persistence argument per input: the mixed variants reset exactly the 'tick side — <'static,'tick> and <'tick,'static> reset
+    different, non-empty sets of state, whose union is what <'tick,'tick> resets"""
+    tcs = tick_closures(crate())
+    for op in ("zip", "join"):
+        names = {k: "p_%s_%s" % (op, k) for k in ("tick_tick", "static_tick", "tick_static", "static_static")}
+        fs = {}
+        for k, n in names.items():
+            b = tcs.get(n)
+            fs[k] = tick_end_fields(b) if b is not None else None
+        key = "corpus|%s|mixed-persistence" % op
+        ctx.inst(R, key, sample={k: (sorted(v) if v is not None else None) for k, v in fs.items()})
+        if any(v is None for v in fs.values()):
+            ctx.anchor_missing(R, "corpus programs p_%s_* (mixed persistence)" % op)
+            continue
+        st, ts, tt = fs["static_tick"], fs["tick_static"], fs["tick_tick"]
+        # positions of captured state differ between programs only by declaration order, which is the same in all four variants
+        if not st or not ts or st == ts or (st & ts) or (st | ts) != tt or fs["static_static"]:
+            ctx.violation(R, key + "|wrong-side", "%s: end-of-tick resets per variant are <'static,'tick>=%s <'tick,'static>=%s <'tick,'tick>=%s <'static,'static>=%s — each input's state must follow its own "
+                          "persistence argument" % (op, sorted(st), sorted(ts), sorted(tt), sorted(fs["static_static"])), tcs[names["static_tick"]].loc())
 
 
 def _reaching(b, target):
